@@ -102,8 +102,38 @@ func verifStore(ctx context.Context, s *Service, down bool) map[string]interface
 			name = ms.SpecSource.Name
 		}
 		v[ms.Mid] = map[string]interface{}{"spec": name, "state": verifStateJSON(ms.NodeName, ms.Bs)}
+		if !verifPlain(map[string]interface{}(ms.Bs)) {
+			verifReloadPlain = false
+		}
 	}
 	return v
+}
+
+// verifReloadPlain: every state read back from the store is plain JSON data as the engine knows it
+// (nil, bool, float64, string, []interface{}, map[string]interface{}) — a reloaded machine is made
+// of the same kinds of values as one that stayed in memory.
+var verifReloadPlain = true
+
+func verifPlain(x interface{}) bool {
+	switch vv := x.(type) {
+	case nil, bool, float64, string:
+		return true
+	case []interface{}:
+		for _, y := range vv {
+			if !verifPlain(y) {
+				return false
+			}
+		}
+		return true
+	case map[string]interface{}:
+		for _, y := range vv {
+			if !verifPlain(y) {
+				return false
+			}
+		}
+		return true
+	}
+	return false
 }
 
 func verifRunCase(dir string, c *verifCase) {
@@ -173,8 +203,13 @@ func verifRunCase(dir string, c *verifCase) {
 		steps = append(steps, map[string]interface{}{"res": res, "mem": verifMem(s), "store": verifStore(ctx, s, down)})
 	}
 	c.Go = map[string]interface{}{"steps": steps}
+	if c.Probe == nil {
+		c.Probe = map[string]interface{}{}
+	}
+	c.Probe["storeReloadPlain"] = verifReloadPlain
+	verifReloadPlain = true
 	if !down {
-		c.Probe = map[string]interface{}{"noLostUpdate": verifConcurrent(ctx, s)}
+		c.Probe["noLostUpdate"] = verifConcurrent(ctx, s)
 		if c.Id%3 == 0 {
 			c.Probe["emissionsFedBackOnce"] = verifFanout(ctx, s, specDir)
 		}
